@@ -30,8 +30,7 @@ func c14RemoteExpand(g *ssa.Function) bool {
 	if fnPkgPath(g) != pkgPath(c14PkgRemote) {
 		return false
 	}
-	switch FnName(g) {
-	case c14NPush, c14NDel, c14NFetch:
+	if FnName(g) == c14NFetch || c14HTTPKind(g) != "" {
 		return false
 	}
 	if g.Parent() != nil {
@@ -39,6 +38,35 @@ func c14RemoteExpand(g *ssa.Function) bool {
 	}
 	return g.Object() == nil || !g.Object().Exported()
 }
+
+// c14HTTPKind: g itself builds an HTTP request (http.NewRequestWithContext /
+// http.NewRequest with a constant method): returns that method ("PUT",
+// "DELETE", …), "mixed" for several, "" if g is not such a primitive.
+func c14HTTPKind(g *ssa.Function) string {
+	if g == nil {
+		return ""
+	}
+	kind := ""
+	for _, call := range CallsTo(g, "net/http.NewRequestWithContext", "net/http.NewRequest") {
+		args := call.Common().Args
+		i := 0
+		if CalleeName(call) == "net/http.NewRequestWithContext" {
+			i = 1
+		}
+		m, ok := constString(args[i])
+		if !ok {
+			m = "mixed"
+		}
+		if kind != "" && kind != m {
+			return "mixed"
+		}
+		kind = m
+	}
+	return kind
+}
+
+func c14IsPush(call ssa.CallInstruction) bool { return c14HTTPKind(StaticCallee(call)) == "PUT" }
+func c14IsDel(call ssa.CallInstruction) bool  { return c14HTTPKind(StaticCallee(call)) == "DELETE" }
 
 type c14Upd struct {
 	U               *ssa.Function
@@ -132,11 +160,11 @@ func c14R3(c *Ctx) {
 		c.LostAnchor(R, "~/internal/syncutil.Merge.Do / Pool.Get")
 		return
 	}
-	if !c14HasField(c.P, c14PkgRemote, "Repository", "referrersMergePool") || !c14HasField(c.P, c14PkgRemote, "Repository", "SkipReferrersGC") {
+	if _, pool := c14RepoFields(c); pool == "" || !c14HasField(c.P, c14PkgRemote, "Repository", "SkipReferrersGC") {
 		c.LostAnchor(R, "~/registry/remote.Repository.{referrersMergePool,SkipReferrersGC}")
 		return
 	}
-	for _, n := range []string{"manifestStore.push", "Repository.delete", "Repository.referrersFromIndex"} {
+	for _, n := range []string{"Repository.referrersFromIndex"} {
 		if c.P.Fn(c14PkgRemote, n) == nil {
 			c.LostAnchor(R, "~/registry/remote."+n)
 			return
@@ -207,7 +235,8 @@ func c14R3Updater(c *Ctx, u *c14Upd, getGen *ssa.Function) {
 	okPool := false
 	for _, l := range V.LeavesShallow(gargs[0]) {
 		fa, isFA := l.(*ssa.FieldAddr)
-		okPool = isFA && fieldName(fa.X.Type(), fa.Field) == "~/registry/remote.Repository.referrersMergePool"
+		_, poolField := c14RepoFields(c)
+		okPool = isFA && fieldName(fa.X.Type(), fa.Field) == "~/registry/remote.Repository."+poolField
 		if !okPool {
 			break
 		}
@@ -511,13 +540,13 @@ func c14R3Updater(c *Ctx, u *c14Upd, getGen *ssa.Function) {
 	})
 	okKinds := len(pushes) > 0 && len(deletes) > 0
 	for _, p := range pushes {
-		if CalleeName(p) != c14NPush {
+		if !c14IsPush(p) {
 			c.Undecided(R, upn+"|effects-classified", p.Pos(), "update passes the referrers tag to "+CalleeName(p)+": not the confirmed index push, classify it")
 			okKinds = false
 		}
 	}
 	for _, d := range deletes {
-		if CalleeName(d) != c14NDel {
+		if !c14IsDel(d) {
 			c.Undecided(R, upn+"|effects-classified", d.Pos(), "update passes the old index descriptor to "+CalleeName(d)+": not the confirmed delete, classify it")
 			okKinds = false
 		}
@@ -1202,7 +1231,6 @@ func c14R3TagInventory(c *Ctx, us []*c14Upd) {
 		c14NFetch:                            "read of the current index",
 		"(*~/registry/remote.Repository).FetchReference": "read (GET by tag)",
 		"fmt.Errorf": "error text",
-		c14NPush:     "THE write: push of the new index, inside the update callback run by Merge.Do",
 	}
 	if fetchFn != nil && len(fetchFn.Params) >= 3 {
 		al := Aliases(fetchFn.Params[2])
@@ -1241,6 +1269,10 @@ func c14R3TagInventory(c *Ctx, us []*c14Upd) {
 	for _, us := range uses {
 		name := CalleeName(us.call)
 		role, known := roles[name]
+		isPush := c14IsPush(us.call)
+		if isPush {
+			role, known, name = "THE write: push (HTTP PUT) of the new index, inside the update callback run by Merge.Do", true, "push(PUT)"
+		}
 		where := "elsewhere"
 		if upFns[us.f] {
 			where = "in-update"
@@ -1256,14 +1288,14 @@ func c14R3TagInventory(c *Ctx, us []*c14Upd) {
 		switch {
 		case !known:
 			a.ok, a.why, a.pos = false, "unclassified use of a referrers tag in "+FnName(us.f)+": this call receives a referrers tag but is not on the confirmed list (read of the index, pool key, or the single push inside the Merge-protected update callback); a push/tag/delete by referrers tag outside Merge.Do is an unserialised read-modify-write", us.call.Pos()
-		case name == c14NPush && !upFns[us.f]:
+		case isPush && !upFns[us.f]:
 			a.ok, a.why, a.pos = false, "the index is pushed under a referrers tag by "+FnName(us.f)+", which is not run by the update callback of Merge.Do: unserialised read-modify-write", us.call.Pos()
 		default:
 			if a.why == "" {
 				a.why = role
 			}
 		}
-		if name == c14NPush && upFns[us.f] {
+		if isPush && upFns[us.f] {
 			seenPush = true
 		}
 		if strings.HasSuffix(name, ".Get") && strings.Contains(name, "syncutil.Pool") {
@@ -1280,7 +1312,7 @@ func c14R3TagInventory(c *Ctx, us []*c14Upd) {
 		}
 	}
 	if !seenPush {
-		c.ob(R, c14NPush+"|in-update", token.NoPos, Lost, true, "required use of the referrers tag no longer present: the push of the new index inside the update callback")
+		c.ob(R, "push(PUT)|in-update", token.NoPos, Lost, true, "required use of the referrers tag no longer present: the push of the new index inside the update callback")
 	}
 	if !seenKey {
 		c.ob(R, "Pool.Get|key", token.NoPos, Lost, true, "required use of the referrers tag no longer present: the pool key")
